@@ -156,8 +156,9 @@ func (fi *FuncInfo) sliceOff(S ssa.Value, depth int) (root ssa.Value, off Lin, o
 
 // extLemmas: equalities kept by the word-extension loops, proved by
 // induction at the loop header:
-//   k + len(q) = k₀ + len(q₀)        (both directions)
-//   len(r) − len(q) = len(r₀) − len(q₀)
+//
+//	k + len(q) = k₀ + len(q₀)        (both directions)
+//	len(r) − len(q) = len(r₀) − len(q₀)
 var extLemmaMemo = map[*FuncInfo][]Fact{}
 
 func (fi *FuncInfo) extLemmas() []Fact {
@@ -938,36 +939,43 @@ type tableInsert struct {
 
 func (c *Ctx) tableInserts(fn *ssa.Function) []tableInsert {
 	var out []tableInsert
+	ro := c.roles()
 	for _, b := range fn.Blocks {
 		for _, in := range b.Instrs {
 			switch x := in.(type) {
 			case *ssa.Store:
+				// table[h] = entry{pos: …}: a store of an entry value into an entry slice
 				ia, ok := x.Addr.(*ssa.IndexAddr)
-				if !ok {
+				if !ok || !c.isEntryType(x.Val.Type()) {
 					continue
 				}
 				_, p, ok := pathStr(ia.X)
-				if !ok || lastField(p) != "table" {
+				if !ok {
 					continue
 				}
-				if _, isStruct := x.Val.Type().Underlying().(*types.Struct); !isStruct {
-					continue
+				if _, isIns := ro.inserters[fn]; isIns {
+					continue // the helper's own store is accounted at its call sites
 				}
-				pv := structComponent(x.Val, "pos")
+				pv := structComponent(x.Val, c.posFieldName(x.Val.Type()))
 				if pv == nil || pv == x.Val {
-					continue
+					continue // zero entry (cleared) or unresolved
 				}
 				out = append(out, tableInsert{in, pv, p})
 			case *ssa.Call:
+				// insert helper (bucket hash): helper(recv, …, pos, …)
 				callee := x.Call.StaticCallee()
-				if callee == nil || callee.Name() != "add" || len(x.Call.Args) != 4 {
+				if callee == nil {
+					continue
+				}
+				ins, isIns := ro.inserters[callee]
+				if !isIns || ins.posParam >= len(x.Call.Args) || ins.posParam == 0 {
 					continue
 				}
 				_, p, ok := pathStr(x.Call.Args[0])
 				if !ok {
 					continue
 				}
-				out = append(out, tableInsert{in, x.Call.Args[2], joinPath(p, "buckets")})
+				out = append(out, tableInsert{in, x.Call.Args[ins.posParam], joinPath(p, ins.slice)})
 			}
 		}
 	}
@@ -1255,7 +1263,7 @@ func (c *Ctx) candidateLoadBlock(fi *FuncInfo, s *ScanLoop, b *ssa.BasicBlock) *
 			}
 			hasPos := false
 			for i := 0; i < st.NumFields(); i++ {
-				if st.Field(i).Name() == "pos" {
+				if c.isEntryType(ld.Type()) {
 					hasPos = true
 				}
 			}
@@ -1650,7 +1658,6 @@ func (fi *FuncInfo) validFacts(facts []Fact, at *ssa.BasicBlock, preds []*ssa.Ba
 	}
 	return out
 }
-
 
 // ---------------------------------------------------------------- R-PREFIX-COVER
 
